@@ -6,7 +6,22 @@ thorough: depth 3 on representatives) the text print(T) is produced three ways (
 per the Modelica specification grammar, fully parenthesised, redundant parentheses).  The value-level
 claim is decided by z3: for ALL values of the variables, meaning(parsed right-hand side) ==
 meaning(T).  Literals are compared concretely with their exact values.
+
+Third round (families added in this file, the exprgen printer stays the specification):
+  * every text: the literal leaves of the parsed node, left to right, must have exactly the type and
+    value of the literal leaves of T (Integer / Real / Boolean are distinct even when equal in value);
+  * spacing variants of the same token sequence (no blanks; blanks, newlines and comments between all
+    tokens) and the `elseif` spelling of nested if-expressions;
+  * the expression in other syntactic positions than an equation right-hand side (initial equation,
+    left-hand side, algorithm assignment, declaration binding, start modification, if-equation
+    condition);
+  * signed powers in context, literal forms as operands, both Boolean literals, argument order of
+    asymmetric builtin calls, elseif chains;
+  * several literals of equal value and different type in ONE source text (equation / declaration /
+    second class), strings with escape sequences at every position, range expressions whose bounds
+    are expressions.
 """
+import re
 import sys
 import traceback
 
@@ -14,6 +29,7 @@ import z3
 
 from pymoca import ast, parser
 from vk import exprgen
+from vk.exprgen import And, Bn, Bool, Call, If, N, Not, Or, Rel, Un, V
 from vk.report import Collector, EncodingGap, Report, run_parallel, std_args
 from vk.smt import equiv, ops, pipeline
 from vk.smt.ast2z3 import Ref
@@ -21,89 +37,529 @@ from vk.smt.ast2z3 import Ref
 PROP = "C03"
 RV, BV = ["a", "b", "c", "d", "e", "f"], ["p", "q", "r", "s"]
 BATCH = 60
+BASE_MODES = ("min", "full", "redundant")
+PLACES = ("initial", "lhs", "alg", "binding", "start", "ifcond")
 
 
-def model_of(texts, kinds):
+# ---- texts ------------------------------------------------------------------------------------
+TOKEN = re.compile(r"\d+(?:\.\d*)?(?:[eE][+-]?\d+)?|[A-Za-z_]\w*|\.[-+*/^]|<=|>=|<>|==|[-+*/^<>(),]")
+WIDE_SEPS = ["  ", "\n      ", " /* c */ ", " // c\n      ", "\t", " /* a + b */ "]
+
+
+def tokens(s):
+    toks = TOKEN.findall(s)
+    if "".join(toks) != "".join(s.split()):
+        raise ValueError(f"tokeniser does not cover {s!r}")
+    return toks
+
+
+def respace(s, style):
+    """Same token sequence, other white space.  tight: no blank unless two word-like tokens would
+    fuse, or a number would fuse with the dot of an element-wise operator (`2 .* a` is not `2.*a`).
+    wide: blanks, newlines, block and line comments between all tokens."""
+    toks = tokens(s)
+    out = [toks[0]]
+    for k, (prev, tok) in enumerate(zip(toks, toks[1:])):
+        if style == "wide":
+            out.append(WIDE_SEPS[k % len(WIDE_SEPS)])
+        elif (prev[-1].isalnum() or prev[-1] == "_" or prev[0].isdigit()) and (tok[0].isalnum() or tok[0] == "_"):
+            out.append(" ")
+        elif prev[0].isdigit() and tok[0] == ".":
+            out.append(" ")
+        out.append(tok)
+    return "".join(out)
+
+
+def text_of(t, mode):
+    if mode in BASE_MODES:
+        return exprgen.pr(t, mode)
+    if mode == "tight":
+        return respace(exprgen.pr(t, "min"), "tight")
+    if mode == "wide":
+        return respace(exprgen.pr(t, "redundant"), "wide")
+    if mode == "elseif":   # `else if ...` in the else branch has the same meaning as `elseif ...`
+        return exprgen.pr(t, "min").replace(" else if ", " elseif ")
+    raise ValueError(mode)
+
+
+def label(t, mode, text):
+    """Case identifier: the text itself for the printer's own modes, else mode + minimal text."""
+    return f"{mode}:{text}" if mode in BASE_MODES else f"{mode}:{exprgen.pr(t, 'min')}"
+
+
+def model_of(texts, kinds, place="eq"):
+    ty = lambda k: "Real" if k == "R" else "Boolean"
     decl = "  Real " + ", ".join(RV) + ";\n  Boolean " + ", ".join(BV) + ";\n"
-    decl += "".join(f"  {'Real' if k == 'R' else 'Boolean'} y{i};\n" for i, k in enumerate(kinds))
-    eqs = "".join(f"  y{i} = {t};\n" for i, t in enumerate(texts))
-    return "model M\n" + decl + "equation\n" + eqs + "end M;\n"
+    if place == "binding":
+        decl += "".join(f"  {ty(k)} y{i} = {t};\n" for i, (k, t) in enumerate(zip(kinds, texts)))
+        return "model M\n" + decl + "end M;\n"
+    if place == "start":
+        decl += "".join(f"  {ty(k)} y{i}(start = {t});\n" for i, (k, t) in enumerate(zip(kinds, texts)))
+        return "model M\n" + decl + "end M;\n"
+    decl += "".join(f"  {ty(k)} y{i};\n" for i, k in enumerate(kinds))
+    if place == "eq":
+        body = "equation\n" + "".join(f"  y{i} = {t};\n" for i, t in enumerate(texts))
+    elif place == "initial":
+        body = "initial equation\n" + "".join(f"  y{i} = {t};\n" for i, t in enumerate(texts))
+    elif place == "lhs":
+        body = "equation\n" + "".join(f"  {t} = y{i};\n" for i, t in enumerate(texts))
+    elif place == "alg":
+        body = "algorithm\n" + "".join(f"  y{i} := {t};\n" for i, t in enumerate(texts))
+    elif place == "ifcond":
+        body = "equation\n" + "".join(f"  if {t} then\n    a = b;\n  else\n    a = c;\n  end if;\n" for t in texts)
+    else:
+        raise ValueError(place)
+    return "model M\n" + decl + body + "end M;\n"
 
 
-def check_batch(col, batch):
-    """batch: list of (kind, tree, mode)."""
-    texts = [exprgen.pr(t, mode) for _, t, mode in batch]
+def modification(sym, name):
+    for arg in sym.class_modification.arguments:
+        if arg.value.component.name == name:
+            return arg.value.modifications[0]
+    raise KeyError(name)
+
+
+def node_at(cls, place, i):
+    if place == "eq":
+        return cls.equations[i].right
+    if place == "initial":
+        return cls.initial_equations[i].right
+    if place == "lhs":
+        return cls.equations[i].left
+    if place == "alg":
+        return cls.statements[i].right
+    if place == "binding":
+        return modification(cls.symbols[f"y{i}"], "value")
+    if place == "start":
+        return modification(cls.symbols[f"y{i}"], "start")
+    if place == "ifcond":
+        return cls.equations[i].conditions[0]
+    raise ValueError(place)
+
+
+# ---- literal leaves ---------------------------------------------------------------------------
+def lit_value(txt):
+    """Exact Python value of a Modelica literal text."""
+    if txt in ("true", "false"):
+        return txt == "true"
+    if txt.startswith('"'):
+        return txt[1:-1]
+    return int(txt) if re.fullmatch(r"[0-9]+", txt) else float(txt)
+
+
+def tree_leaves(t, out=None):
+    """Literal leaves of a specification tree in textual order."""
+    out = [] if out is None else out
+    k = t[0]
+    if k == "num":
+        out.append(lit_value(t[1]))
+    elif k == "bool":
+        out.append(bool(t[1]))
+    elif k in ("bin", "rel"):
+        tree_leaves(t[2], out), tree_leaves(t[3], out)
+    elif k == "un":
+        tree_leaves(t[2], out)
+    elif k == "call":
+        for a in t[2:]:
+            tree_leaves(a, out)
+    elif k != "var":   # not / and / or / if
+        for a in t[1:]:
+            tree_leaves(a, out)
+    return out
+
+
+def parsed_leaves(e, out=None):
+    """Literal leaves (Primary values) of a parsed node in textual order."""
+    out = [] if out is None else out
+    if isinstance(e, ast.Primary):
+        out.append(e.value)
+    elif isinstance(e, ast.Expression):
+        for o in e.operands:
+            parsed_leaves(o, out)
+    elif isinstance(e, ast.IfExpression):
+        for c, x in zip(e.conditions, e.expressions):
+            parsed_leaves(c, out), parsed_leaves(x, out)
+        parsed_leaves(e.expressions[-1], out)
+    elif isinstance(e, ast.Array):
+        for v in e.values:
+            parsed_leaves(v, out)
+    elif isinstance(e, ast.Slice):
+        parsed_leaves(e.start, out), parsed_leaves(e.step, out), parsed_leaves(e.stop, out)
+    elif isinstance(e, list):
+        for v in e:
+            parsed_leaves(v, out)
+    return out
+
+
+def same_literals(got, want):
+    return len(got) == len(want) and all(type(g) is type(w) and g == w and repr(g) == repr(w) for g, w in zip(got, want))
+
+
+def show(vals):
+    return "[" + ", ".join(f"{type(v).__name__} {v!r}" for v in vals) + "]"
+
+
+# ---- the value-level check --------------------------------------------------------------------
+def compare(col, case, node, t, env, ref, one_model, whole_text):
+    """z3: meaning(parsed node) == meaning(t) for all values; concretely: same literal leaves."""
+    ref.div = ops.Divisors()   # definedness assumption: only the divisors of THIS text, not of its neighbours
+    try:
+        got = ref.ev(node)
+    except EncodingGap as g:
+        col.violation(f"{case}:shape", f"parsed tree cannot be evaluated as an expression: {g}", {"model_text": one_model()})
+        return
+    want = exprgen.meaning(t, env, ref.div)
+    if isinstance(got, list):
+        col.violation(f"{case}:list", "parsed right-hand side is a list", {"model_text": one_model()})
+        return
+    gl, wl = parsed_leaves(node), tree_leaves(t)
+    if not same_literals(gl, wl):
+        col.violation(f"{case}:literals", f"literals of the text are {show(wl)} (type and exact value), the parsed tree holds {show(gl)}",
+                      {"model_text": whole_text})   # the other literals of the same text may matter
+    if got.get_id() == want.get_id():
+        col.count("unsat")
+        return
+    r, m = equiv.check(col, ref.div.nonzero() + [got != want])
+    if r == "sat":
+        pt = equiv.point_from_model(m, [got, want])
+        conf = None
+        for p in equiv.perturbations(pt, 0):
+            try:
+                gv = equiv.z3eval(got, pipeline._Default(p))
+                wv = equiv.z3eval(want, pipeline._Default(p))
+            except Exception:
+                continue
+            if not equiv.close(float(gv), float(wv)):
+                conf = {"point": p, "parsed_value": gv, "modelica_value": wv}
+                break
+        if conf:
+            col.violation(case, "the parsed tree evaluates differently from the value Modelica precedence gives the text",
+                          {"model_text": one_model(), "detail": conf})
+        else:
+            col.note_inconclusive(f"{case} sat did not replay")
+    elif r == "unknown":
+        col.note_inconclusive(f"{case} unknown")
+
+
+def check_batch(col, batch, place="eq"):
+    """batch: list of (kind, tree, mode); every text of the batch is in the same source file."""
+    texts = [text_of(t, mode) for _, t, mode in batch]
+    if place == "lhs":   # the left-hand side is a simple_expression: an if-expression needs parentheses
+        texts = ["(" + s + ")" if t[0] == "if" else s for s, (_, t, _) in zip(texts, batch)]
     kinds = [k for k, _, _ in batch]
-    text = model_of(texts, kinds)
+    text = model_of(texts, kinds, place)
     tree = parser._parse(text)
+    pfx = "" if place == "eq" else place + ":"
     if tree is None:
         if len(batch) == 1:
-            col.violation(f"{batch[0][2]}:{texts[0]}:syntax-error", "a text valid in the Modelica grammar is rejected by the parser",
-                          {"model_text": text})
+            col.violation(f"{pfx}{label(batch[0][1], batch[0][2], texts[0])}:syntax-error",
+                          "a text valid in the Modelica grammar is rejected by the parser", {"model_text": text})
             return
         for b in batch:
-            check_batch(col, [b])
+            check_batch(col, [b], place)
         return
     cls = tree.classes["M"]
     ref = Ref(tree, "M")
     env = {n: z3.Real(n) for n in RV + BV}
     for i, (kind, t, mode) in enumerate(batch):
-        eq = cls.equations[i]
         col.bump("texts")
-        try:
-            got = ref.ev(eq.right)
-        except EncodingGap as g:
-            col.violation(f"{mode}:{texts[i]}:shape", f"parsed tree cannot be evaluated as an expression: {g}", {"model_text": model_of([texts[i]], [kind])})
-            continue
-        want = exprgen.meaning(t, env, ref.div)
-        if isinstance(got, list):
-            col.violation(f"{mode}:{texts[i]}:list", "parsed right-hand side is a list", {"text": texts[i]})
-            continue
-        if got.get_id() == want.get_id():
-            col.count("unsat")
-            continue
-        r, m = equiv.check(col, ref.div.nonzero() + [got != want])
-        if r == "sat":
-            pt = equiv.point_from_model(m, [got, want])
-            conf = None
-            for p in equiv.perturbations(pt, 0):
-                try:
-                    gv = equiv.z3eval(got, pipeline._Default(p))
-                    wv = equiv.z3eval(want, pipeline._Default(p))
-                except Exception:
-                    continue
-                if not equiv.close(float(gv), float(wv)):
-                    conf = {"point": p, "parsed_value": gv, "modelica_value": wv}
-                    break
-            if conf:
-                col.violation(f"{mode}:{texts[i]}", "the parsed tree evaluates differently from the value Modelica precedence gives the text",
-                              {"text": texts[i], "model_text": model_of([texts[i]], [kind]), "detail": conf})
-            else:
-                col.note_inconclusive(f"{mode}:{texts[i]} sat did not replay")
-        elif r == "unknown":
-            col.note_inconclusive(f"{mode}:{texts[i]} unknown")
+        col.bump("texts_" + (mode if place == "eq" else "place_" + place))
+        case = pfx + label(t, mode, texts[i])
+        one = lambda i=i, kind=kind: model_of([texts[i]], [kind], place)
+        compare(col, case, node_at(cls, place, i), t, env, ref, one, text)
 
 
-def work(batch):
+# ---- range expressions ------------------------------------------------------------------------
+def range_cases(tier):
+    """(start, step or None, stop): `start : step : stop`; the range operator binds looser than every
+    operator of `expr`, so each part may be any non-if expression without parentheses."""
+    one, two, a, b, c = N("1"), N("2"), V("a"), V("b"), V("c")
+    parts = [one, N("7"), a, Un("-", one), Un("-", a), Bn("+", one, one), Bn("-", a, one), Bn("*", two, a), Bn("/", a, two),
+             Bn("^", a, two), Un("-", Bn("^", a, two)), Bn("-", Bn("-", a, b), c), Bn("-", a, Bn("*", b, c)), Call("max", a, b),
+             Rel("<", a, b), Or(V("p"), V("q")), And(V("p"), Not(V("q"))), N("1.5"), N("10")]
+    out = [(one, two, N("7")), (two, None, N("5")), (N("7"), Un("-", two), one), (N("10"), None, N("12"))]
+    n = len(parts)
+    stride = 1 if tier == "thorough" else 3
+    for i in range(n):
+        out.append((parts[i], None, parts[(i + 5) % n]))
+        out.append((parts[i], parts[(i + 7) % n], parts[(i + 11) % n]))
+    if tier == "thorough":
+        for i in range(n):
+            for j in range(0, n, stride):
+                out.append((parts[i], None, parts[j]))
+                out.append((parts[j], parts[i], parts[(i + j) % n]))
+    return out
+
+
+def check_ranges(col, cases, mode, where):
+    """where: for (for-index), sub (array subscript), rhs (equation right-hand side)."""
+    def rng(c):
+        return " : ".join(text_of(p, mode) for p in c if p is not None) if mode != "tight" else \
+            ":".join(text_of(p, mode) for p in c if p is not None)
+    rtexts = [rng(c) for c in cases]
+    head = "model M\n  Real " + ", ".join(RV) + ";\n  Boolean " + ", ".join(BV) + ";\n  Real v[9], w[9];\nequation\n"
+    if where == "for":
+        body = "".join(f"  for i in {r} loop\n    v[i] = 0;\n  end for;\n" for r in rtexts)
+    elif where == "sub":
+        body = "".join(f"  v[{r}] = w;\n" for r in rtexts)
+    else:
+        body = "".join(f"  w = {r};\n" for r in rtexts)
+    text = head + body + "end M;\n"
+    tree = parser._parse(text)
+    if tree is None:
+        if len(cases) == 1:
+            col.violation(f"range-{where}:{mode}:{rtexts[0]}:syntax-error", "a range expression valid in the Modelica grammar is rejected", {"model_text": text})
+            return
+        for c in cases:
+            check_ranges(col, [c], mode, where)
+        return
+    cls = tree.classes["M"]
+    ref = Ref(tree, "M")
+    env = {n: z3.Real(n) for n in RV + BV}
+    for i, c in enumerate(cases):
+        col.bump("texts")
+        col.bump("texts_range")
+        eq = cls.equations[i]
+        sl = eq.indices[0].expression if where == "for" else eq.left.indices[0][0] if where == "sub" else eq.right
+        case = f"range-{where}:{mode}:{rtexts[i]}"
+        if not isinstance(sl, ast.Slice):
+            col.violation(case + ":shape", f"range expression parsed to {type(sl).__name__}, not a Slice", {"model_text": text})
+            continue
+        for part, node, t in (("start", sl.start, c[0]), ("step", sl.step, c[1] if c[1] is not None else N("1")), ("stop", sl.stop, c[2])):
+            compare(col, f"{case}:{part}", node, t, env, ref, lambda: text, text)
+
+
+# ---- families ---------------------------------------------------------------------------------
+def extra_trees(tier):
+    """Operator/literal classes the depth-2 enumeration of exprgen does not reach."""
+    a, b, c, p, q = V("a"), V("b"), V("c"), V("p"), V("q")
+    res = []
+    # signed powers in context: the sign applies to the whole power (and to the whole first term)
+    pairs = [(a, b), (a, N("2")), (N("2"), N("2")), (a, N("0.5")), (N("2"), a), (a, N("3"))]
+    for sg in ("-", "+"):
+        for pw in ("^", ".^"):
+            for x, y in (pairs if pw == "^" else pairs[:2]):
+                P = Bn(pw, x, y)
+                S = Un(sg, P)
+                res += [("R", S), ("R", Bn("+", S, c)), ("R", Bn("-", c, S)), ("R", Bn("*", S, c)), ("R", Bn("/", c, S)),
+                        ("R", Un(sg, Bn("*", P, c))), ("R", Un(sg, Bn("*", c, P))), ("R", Un(sg, Bn("/", c, P))),
+                        ("R", Bn(pw, Un(sg, x), y)), ("R", Bn(pw, x, Un(sg, y))), ("R", Bn("-", Un(sg, P), Bn(pw, c, y))),
+                        ("B", Rel("<", S, c)), ("B", Rel(">=", c, S)), ("R", Call("sin", S)), ("R", If(Rel("<", S, c), S, c))]
+    # literal forms as operands (lexing of exponents, trailing dots, long integers inside expressions)
+    lits = ["0", "1", "10", "1234567890123", "9007199254740993", "1.0", "0.0", "1e3", "1E3", "2.5e-3", "1.5e+3", "12.", "1.e2", "0.5E1"]
+    for L in lits:
+        n = N(L)
+        res += [("R", Bn("-", a, n)), ("R", Bn("-", n, a)), ("R", Bn("*", n, a)), ("R", Bn("/", a, n)), ("R", Un("-", n)),
+                ("R", Bn("+", Un("-", n), a)), ("R", Bn(".*", n, a)), ("R", Bn(".-", a, n)), ("R", Bn("^", a, n)), ("R", Bn("^", n, a)),
+                ("B", Rel("<=", n, a)), ("B", Rel("<>", a, n)), ("R", Call("max", n, a)), ("R", Bn("-", n, n))]
+    # both Boolean literals in every Boolean position
+    for v in (True, False):
+        B = Bool(v)
+        res += [("B", B), ("B", Not(B)), ("B", And(p, B)), ("B", And(B, p)), ("B", Or(B, p)), ("B", Or(p, B)), ("B", Or(And(p, B), q)),
+                ("B", And(Not(B), q)), ("R", If(B, a, b)), ("B", If(p, B, Not(B))), ("B", Rel("==", p, B)), ("B", Rel("<>", B, q)),
+                ("B", Not(Rel("==", B, q)))]
+    # builtin calls: argument order of asymmetric functions, nesting, calls as operands
+    res += [("R", Call("atan2", a, b)), ("R", Call("atan2", b, a)), ("R", Call("atan2", Bn("+", a, b), Bn("*", c, a))),
+            ("R", Call("atan2", Call("atan2", a, b), c)), ("R", Call("atan2", a, Call("atan2", b, c))), ("R", Call("atan2", Un("-", a), N("2"))),
+            ("R", Call("atan2", N("1"), N("2"))), ("R", Call("min", a, b)), ("R", Call("min", Bn("-", a, b), Un("-", c))),
+            ("R", Call("max", a, Call("min", b, c))), ("R", Call("max", Call("min", a, b), c)), ("R", Call("abs", Bn("-", a, b))),
+            ("R", Un("-", Call("abs", a))), ("R", Call("cos", Un("-", a))), ("R", Call("sqrt", Bn("+", a, N("1")))),
+            ("R", Call("exp", Bn("*", Un("-", a), b))), ("R", Call("sin", Call("cos", a))), ("R", Bn("^", Call("sin", a), N("2"))),
+            ("R", Un("-", Bn("^", Call("sin", a), N("2")))), ("R", Bn("*", N("2"), Call("atan2", a, b))), ("R", Bn("-", Call("log", a), Call("log", b))),
+            ("R", Bn("/", Call("tan", a), Call("atan2", b, c))), ("B", Rel("<", Call("atan2", a, b), Call("atan2", b, a))),
+            ("R", If(Rel(">", Call("atan2", a, b), c), Call("min", a, b), Call("max", a, b)))]
+    # elseif chains and if-expressions nested in every branch
+    c1, c2, c3 = Rel("<", a, b), And(p, Not(q)), Or(Rel(">=", b, c), p)
+    res += [("R", If(c1, a, If(c2, b, c))), ("R", If(c1, a, If(c2, b, If(c3, c, V("d"))))), ("R", If(p, If(q, a, b), c)),
+            ("R", If(p, If(q, a, b), If(V("r"), c, V("d")))), ("R", If(If(p, q, V("r")), a, b)), ("R", If(c3, Bn("-", a, b), If(c1, Un("-", a), Bn("^", b, N("2"))))),
+            ("B", If(c1, p, If(c2, q, Not(p)))), ("R", If(Not(p), a, If(Not(q), b, If(Not(V("r")), c, If(Not(V("s")), V("d"), V("e")))))),
+            ("R", Bn("+", If(p, a, If(q, b, c)), V("d"))), ("R", If(p, N("1"), If(q, N("2"), N("3")))), ("R", If(Bool(True), N("1.0"), If(Bool(False), N("1"), N("0"))))]
+    if tier == "thorough":   # every ordered pair of operators around a signed operand / a literal
+        for o1 in ["+", "-", "*", "/", "^", ".+", ".-", ".*", "./", ".^"]:
+            for o2 in ["+", "-", "*", "/", "^"]:
+                for L in ("2", "2.", "1e1", "a"):
+                    x = V("a") if L == "a" else N(L)
+                    res += [("R", Bn(o1, Bn(o2, x, b), c)), ("R", Bn(o1, c, Bn(o2, b, x))), ("R", Un("-", Bn(o1, Bn(o2, x, b), c)))]
+    return res
+
+
+NUM_POOL = ["0", "1", "2", "0.0", "1.0", "1e0", "2.0"]
+NUM_SITES = [lambda n: ("R", Bn("+", V("a"), n)), lambda n: ("R", Bn("*", n, V("a"))), lambda n: ("R", n), lambda n: ("R", Un("-", n)),
+             lambda n: ("R", Call("max", V("a"), n)), lambda n: ("R", If(Rel("<", V("a"), n), V("b"), n)), lambda n: ("B", Rel("==", V("a"), n))]
+BOOL_SITES = [lambda x: ("B", x), lambda x: ("B", And(V("p"), x)), lambda x: ("B", Not(x)), lambda x: ("R", If(x, V("a"), V("b"))),
+              lambda x: ("B", Or(x, V("q")))]
+
+
+def literal_mixes(tier):
+    """Batches (one source text each) holding several literals that are equal in value but differ in
+    type - true / 1 / 1.0 / 1e0, false / 0 / 0.0 - in every order and at rotating sites."""
+    pool = [("n", L) for L in NUM_POOL] + [("b", True), ("b", False)]
+
+    def site(k, lit):
+        kind, v = lit
+        return NUM_SITES[k % len(NUM_SITES)](N(v)) if kind == "n" else BOOL_SITES[k % len(BOOL_SITES)](Bool(v))
+
+    out = []
+    k = 0
+    for l1 in pool:
+        for l2 in pool:
+            reps = range(len(NUM_SITES)) if tier == "thorough" else range(1)
+            for r in reps:
+                k += 1
+                out.append([site(k + r, l1) + ("min",), site(k + 3 + 2 * r, l2) + ("min",)])
+    # all of them in one text, forwards and backwards, in three spellings
+    for mode in ("min", "redundant", "tight"):
+        for order in (pool, pool[::-1], pool[1::2] + pool[::2]):
+            out.append([site(i, l) + (mode,) for i, l in enumerate(order)])
+    return out
+
+
+def work(item):
     col = Collector()
     try:
-        check_batch(col, batch)
-        col.sample({"text": exprgen.pr(batch[0][1], batch[0][2]), "mode": batch[0][2]}, 1)
+        what = item[0]
+        if what == "exprs":
+            _, place, batch = item
+            check_batch(col, batch, place)
+            col.sample({"text": text_of(batch[0][1], batch[0][2]), "mode": batch[0][2], "place": place}, 1)
+        elif what == "mixes":
+            for batch in item[1]:
+                col.bump("literal_mix_texts")
+                check_batch(col, batch)
+        elif what == "ranges":
+            _, mode, where, cases = item
+            check_ranges(col, cases, mode, where)
     except Exception:
         col.harness_error(traceback.format_exc()[-1500:])
     return col
 
 
+# ---- literals, concretely ---------------------------------------------------------------------
 NUMBERS = ["0", "7", "42", "123456789012345678901234567890", "9007199254740993", "1.5", "0.1", "12.", "1.e2", "1e3", "1E3",
            "2.5e-3", "1.5e+3", "3.14159265358979323846", "1e308", "4.9e-324", "0.30000000000000004", "1e-400", "00012", "0.5E1",
            "179769313486231570000000000000000000000000000000000000000000000000000000000000000000000000000000000000000000000000000000000000000000000000000000000000000000000000000000000000000000000000000000000000000000000000000000000000000000000000000000000000000000000000000000000000000000000000000000000000000000000000000.0"]
+NUMBERS2 = ["1", "10", "9", "1000000000", "2147483647", "2147483648", "4294967296", "9007199254740992", "9223372036854775807", "9223372036854775808",
+            "18446744073709551616", "0.0", "1.0", "0e0", "1e0", "1e1", "1E+1", "1E-1", "1.E3", "1.0E+3", "0.1e1", "00.5", "1e22", "1e23",
+            "5e-324", "2.2250738585072014e-308", "1.7976931348623157e308", "100000000000000000000.0", "9007199254740993.0", "0.1234567890123456789",
+            "123456789.123456789", "1e+00", "1e-0", "0000", "000.000"]
 STRINGS = ["abc", "", "a b c", "with , ; ( ) = punctuation", "unicode éü", "tab\there"]
 ESCAPED = [('quote \\" inside', 'quote " inside'), ('back\\\\slash', 'back\\slash'), ('nl\\n', 'nl\n')]
+STRINGS2 = [" ", "  lead", "trail  ", " both ", "x", "'single'", "// not a comment", "/* not a comment */", "end M;", "1", "1.0", "true", "false",
+            "line one\nline two", "\nstarts with newline", "ends with newline\n", "a" * 300, "if x then y else z", "a = b; c := d", "{1, 2}", "abc"]
+ESC_CHARS = ['\\"', "\\\\", "\\n", "\\t", "\\'", "\\?", "\\a", "\\b", "\\f", "\\r", "\\v"]
+UNESC = {'"': '"', "\\": "\\", "n": "\n", "t": "\t", "'": "'", "?": "?", "a": "\a", "b": "\b", "f": "\f", "r": "\r", "v": "\v"}
+
+
+def unescape(src):
+    return re.sub(r"\\(.)", lambda m: UNESC[m.group(1)], src, flags=re.S)
+
+
+def escaped_sources():
+    """Escape sequences at every position of the literal (the delimiters are not part of it)."""
+    out = []
+    for e in ESC_CHARS:
+        out += [e, e + "tail", "head" + e, "he" + e + "ad", e + e, e + "mid" + e, "x" + e + e, e + " ", " " + e]
+    out += ['say \\"yes\\"', '\\"quoted\\" start', '\\\\\\"', '\\"\\\\', 'a\\\\', '\\\\\\\\', 'C:\\\\dir\\\\', '\\"\\"\\"', "mixed \\t\\n\\\\ \\\" end\\\""]
+    return out
+
+
+def string_contexts(srcs):
+    n = len(srcs)
+    decl = "".join(f"  String s{i};\n" for i in range(n))
+    yield "rhs", "model M\n" + decl + "equation\n" + "".join(f'  s{i} = "{s}";\n' for i, s in enumerate(srcs)) + "end M;\n", \
+        lambda cls, i: cls.equations[i].right
+    yield "binding", "model M\n" + "".join(f'  parameter String s{i} = "{s}";\n' for i, s in enumerate(srcs)) + "end M;\n", \
+        lambda cls, i: modification(cls.symbols[f"s{i}"], "value")
+    yield "argument", "model M\n" + decl + "equation\n" + "".join(f'  s{i} = f(1, "{s}", true);\n' for i, s in enumerate(srcs)) + "end M;\n", \
+        lambda cls, i: cls.equations[i].right.operands[1]
+
+
+BACKSLASH_END = "string-then-string:escaped-backslash-before-closing-quote"
+
+
+def string_texts(rep, ctx, items, case_of, fallback=True):
+    """All literals of items [(source, exact value)] in ONE text of context ctx; each parsed value must
+    be the exact value or, at worst, the raw source characters between the delimiters."""
+    _, text, get = [c for c in string_contexts([s for s, _ in items]) if c[0] == ctx][0]
+    t = parser._parse(text)
+    if t is None and fallback and len(items) > 2:   # find the culprits: each one followed by a plain literal
+        for it in items:
+            string_texts(rep, ctx, [it, ("next", "next")], case_of)
+        return
+    rep.coverage["literals"] += len(items)
+    for i, (src, want) in enumerate(items):
+        if t is None:
+            rep.violation(case_of(src) + ":syntax" * (not case_of(src).startswith(BACKSLASH_END)),
+                          f"a text with the string literal \"{src[:60]}\" followed by {len(items) - 1 - i} more string literal(s) is rejected",
+                          {"model_text": text})
+            return
+        node = get(t.classes["M"], i)
+        v = getattr(node, "value", node)
+        if type(v) is not str or (v != want and v != src):
+            rep.violation(case_of(src), f"string literal \"{src[:60]}\" parsed to {v!r}; exact value {want!r} (raw text {src!r})",
+                          {"model_text": text, "index": i})
+
+
+def string_family(rep):
+    """Plain and escaped string literals, many per source text, in three syntactic contexts.  The exact
+    (unescaped) value is asserted on ESCAPED above (open finding: pymoca keeps the raw text); here the
+    parsed value must be the exact value or, at worst, the raw characters between the delimiters -
+    never anything else (truncated, stripped, merged with a neighbour), and the text must be accepted.
+    Literals whose last character is an escaped backslash are known to swallow the closing quote when
+    another quote follows in the text (open finding BACKSLASH_END): they are checked alone, and followed
+    by a second literal under that one case identifier."""
+    plain = [(s, s) for s in STRINGS + STRINGS2]
+    esc = [(s, unescape(s)) for s in escaped_sources()]
+    tail = [it for it in esc if it[1].endswith("\\")]
+    esc = [it for it in esc if not it[1].endswith("\\")]
+    for ctx in ("rhs", "binding", "argument"):
+        case_of = lambda src, ctx=ctx: f"string-content:{ctx}:{src[:60]}"
+        string_texts(rep, ctx, plain, case_of)
+        string_texts(rep, ctx, esc, case_of)
+        string_texts(rep, ctx, esc[::-1] + plain, case_of)
+        for it in tail:
+            string_texts(rep, ctx, [it], case_of)
+            string_texts(rep, ctx, [it, ("next", "next")], lambda src: BACKSLASH_END if src != "next" else case_of(src), fallback=False)
+
+
+def decl_literal_family(rep):
+    """Literals of equal value and different type in one source text, at declaration sites as well as
+    in equations, in both textual orders and across two classes of the same file."""
+    pool = ["0", "1", "0.0", "1.0", "true", "false", '"1"']
+
+    def ty(L):
+        return "Boolean" if L in ("true", "false") else "String" if L.startswith('"') else "Real"
+
+    layouts = {
+        "binding-then-equation": lambda A, B: (f"model M\n  parameter {ty(A)} k = {A};\n  {ty(B)} x;\nequation\n  x = {B};\nend M;\n",
+                                               lambda t: [modification(t.classes["M"].symbols["k"], "value"), t.classes["M"].equations[0].right]),
+        "start-then-array": lambda A, B: (f"model M\n  {ty(A)} x(start = {A});\n  {ty(B)} v[2] = {{{B}, {B}}};\nend M;\n",
+                                          lambda t: [modification(t.classes["M"].symbols["x"], "start"), modification(t.classes["M"].symbols["v"], "value")]),
+        "equation-then-public-binding": lambda A, B: (f"model M\n  {ty(A)} x;\nequation\n  x = {A};\npublic\n  {ty(B)} k = {B};\nend M;\n",
+                                                      lambda t: [t.classes["M"].equations[0].right, modification(t.classes["M"].symbols["k"], "value")]),
+        "two-classes": lambda A, B: (f"model M\n  {ty(A)} x;\nequation\n  x = {A};\nend M;\nmodel N\n  {ty(B)} y = {B};\nend N;\n",
+                                     lambda t: [t.classes["M"].equations[0].right, modification(t.classes["N"].symbols["y"], "value")]),
+        "initial-equation-then-algorithm": lambda A, B: (f"model M\n  {ty(A)} x;\n  {ty(B)} y;\ninitial equation\n  x = {A};\nalgorithm\n  y := {B};\nend M;\n",
+                                                         lambda t: [t.classes["M"].initial_equations[0].right, t.classes["M"].statements[0].right]),
+    }
+    for name, mk in layouts.items():
+        for A in pool:
+            for B in pool:
+                text, get = mk(A, B)
+                rep.coverage["literals"] += 1
+                case = f"literal-sites:{name}:{A},{B}"
+                t = parser._parse(text)
+                if t is None:
+                    rep.violation(case + ":syntax", "model with literals at declaration and equation sites rejected", {"model_text": text})
+                    continue
+                got = parsed_leaves(get(t))
+                want = [lit_value(A)] + [lit_value(B)] * (2 if name == "start-then-array" else 1)
+                if not same_literals(got, want):
+                    rep.violation(case, f"literals of the text are {show(want)} (type and exact value), the parsed tree holds {show(got)}", {"model_text": text})
 
 
 def literals(rep):
-    import re
-    for txt in NUMBERS:
+    for txt in NUMBERS + NUMBERS2:
         t = parser._parse(f"model M\n  Real x;\nequation\n  x = {txt};\nend M;\n")
         rep.coverage["literals"] = rep.coverage.get("literals", 0) + 1
         if t is None:
@@ -131,6 +587,20 @@ def literals(rep):
         v = None if t is None else t.classes["M"].equations[0].right.value
         if v != want:
             rep.violation(f"string-escape:{src}", f"string literal with escape sequence parsed to {v!r}, exact value {want!r}", {"text": src})
+    # all number literals in ONE source text (a literal must not depend on its neighbours)
+    allnum = NUMBERS + NUMBERS2 + NUMBERS[::-1]
+    t = parser._parse("model M\n  Real x;\nequation\n" + "".join(f"  x = {n};\n" for n in allnum) + "end M;\n")
+    rep.coverage["literals"] += len(allnum)
+    if t is None:
+        rep.violation("number:all-in-one-text:syntax", "a model whose equations are the number literals of this check is rejected", {"texts": allnum})
+    else:
+        got = [e.right.value for e in t.classes["M"].equations]
+        want = [lit_value(n) for n in allnum]
+        for n, g, w in zip(allnum, got, want):
+            if not same_literals([g], [w]):
+                rep.violation(f"number-in-context:{n[:40]}", f"literal {n[:40]} parsed to {g!r} ({type(g).__name__}) when other literals share the text, exact value {w!r}", {"text": n})
+    string_family(rep)
+    decl_literal_family(rep)
     # range expressions a:b and a:b:c (start : step : stop in Modelica)
     t = parser._parse("model M\n  Real v[9];\nequation\n  for i in 1:2:7 loop\n    v[i] = 0;\n  end for;\n  for i in 2:5 loop\n    v[i] = 1;\n  end for;\nend M;\n")
     for k, (a, st, b) in enumerate([(1, 2, 7), (2, 1, 5)]):
@@ -141,13 +611,35 @@ def literals(rep):
             rep.violation(f"range:{a}:{st}:{b}", f"range expression start:step:stop = {a}:{st}:{b} parsed as start={got[0]}, step={got[1]}, stop={got[2]}", {"text": f"{a}:{st}:{b}"})
 
 
+def chunks(items, n):
+    return [items[i:i + n] for i in range(0, len(items), n)]
+
+
 def main():
     args = std_args(PROP)
     rep = Report(PROP, args.tier, "translation_validation", args.seed)
+    thorough = args.tier == "thorough"
     ts = exprgen.trees(args.tier)
-    items = [(k, t, mode) for k, t in ts for mode in ("min", "full", "redundant")]
-    batches = [items[i:i + BATCH] for i in range(0, len(items), BATCH)]
-    for col in run_parallel(work, batches, args.jobs):
+    xs = extra_trees(args.tier)
+    work_items = []
+    items = [(k, t, mode) for k, t in ts for mode in BASE_MODES]
+    work_items += [("exprs", "eq", b) for b in chunks(items, BATCH)]
+    # spacing variants: every tree in the thorough tier, a stride through the enumeration otherwise
+    sp = ts if thorough else ts[::7]
+    items = [(k, t, mode) for k, t in sp for mode in ("tight", "wide")]
+    items += [(k, t, mode) for k, t in xs for mode in ("min", "redundant", "tight") + (("full", "wide") if thorough else ())]
+    items += [(k, t, "elseif") for k, t in ts + xs if " else if " in exprgen.pr(t, "min")]
+    work_items += [("exprs", "eq", b) for b in chunks(items, BATCH)]
+    # the same expressions in other syntactic positions
+    for n, place in enumerate(PLACES):
+        sel = (ts if thorough else ts[n::23]) + xs[n::1 if thorough else 5]
+        items = [(k, t, "min") for k, t in sel if place != "ifcond" or k == "B"]
+        work_items += [("exprs", place, b) for b in chunks(items, BATCH)]
+    work_items += [("mixes", g) for g in chunks(literal_mixes(args.tier), 12)]
+    rc = range_cases(args.tier)
+    for mode, where in (("min", "for"), ("redundant", "sub"), ("tight", "rhs")) + ((("min", "sub"), ("wide", "for"), ("full", "rhs")) if thorough else ()):
+        work_items += [("ranges", mode, where, c) for c in chunks(rc, 30)]
+    for col in run_parallel(work, work_items, args.jobs):
         rep.merge(col)
     literals(rep)
     # canary: the printer must distinguish (a - b) - c from a - (b - c)
@@ -158,6 +650,11 @@ def main():
     t2 = exprgen.Bn("-", exprgen.V("a"), exprgen.Bn("-", exprgen.V("b"), exprgen.V("c")))
     r, _ = equiv.check(c, [exprgen.meaning(t1, env, d) != exprgen.meaning(t2, env, d)])
     ok = r == "sat" and exprgen.pr(t1) == "a - b - c" and exprgen.pr(t2) == "a - (b - c)"
+    # ... the spacing variants keep the token sequence, and the literal comparison separates 1 / 1.0 / true
+    ok = ok and respace("a - 2 .* b <= -c", "tight") == "a-2 .*b<=-c" and \
+        tokens(re.sub(r"/\*.*?\*/|//[^\n]*", " ", respace("not (a - 1e-3) < b", "wide"))) == tokens("not(a-1e-3)<b")
+    ok = ok and not same_literals([1], [True]) and not same_literals([1], [1.0]) and same_literals([1, 2.0, False], [1, 2.0, False])
+    ok = ok and tree_leaves(If(Bool(True), N("1"), Bn("+", N("1.0"), N("2")))) == [True, 1, 1.0, 2]
     rep.coverage["canary_detected"] = ok
     if not ok:
         rep.harness_error("canary failed")
@@ -165,8 +662,18 @@ def main():
     cov["programs"] = cov.get("texts", 0)
     cov["disagreements_checked"] = rep.queries.get("sat", 0)
     cov["functions_encoded"] = ["parser._parse + ASTListener expression handlers (executed); parsed ast.Expression trees -> z3 (ast2z3)"]
-    cov["bounds"] = "expression trees of depth <= 2 over + - * / ^ and element-wise forms, unary +/-, six relations, not/and/or, if-then-else, sin/max (thorough: depth 3 on representatives), three parenthesisations; variable values unbounded reals"
-    rep.assumptions += ["the text -> parse tree step is executed, not encoded", "pow and sin are uninterpreted; divisors non-zero; Booleans as 0/1 with and=product, or=sum"]
+    cov["bounds"] = ("expression trees of depth <= 2 over + - * / ^ and element-wise forms, unary +/-, six relations, not/and/or, if-then-else, sin/max "
+                     "(thorough: depth 3 on representatives), three parenthesisations; plus signed powers in 15 contexts, 14 number-literal forms and both Boolean "
+                     "literals as operands, atan2/min/abs/nested calls, elseif chains (both spellings); spacing variants (no blanks / blanks, newlines and "
+                     "comments between all tokens) on every 7th tree (thorough: all); the expression as initial-equation rhs, equation lhs, algorithm rhs, "
+                     "declaration binding, start modification and if-equation condition on a stride of the trees (thorough: all); range expressions "
+                     "start:stop / start:step:stop whose parts are expressions, as for-index, subscript and rhs; every text also has its literal leaves compared "
+                     "by type and exact value; literal mixes: ordered pairs and full sequences of 0/1/2/0.0/1.0/1e0/2.0/true/false in one source text, "
+                     "also at declaration sites, in a second class and after the equation section; 56+35 number texts alone and all in one text; plain and "
+                     "escaped strings (11 escape sequences x 9 positions) as rhs, binding and call argument; variable values unbounded reals")
+    rep.assumptions += ["the text -> parse tree step is executed, not encoded", "pow and sin are uninterpreted; divisors non-zero; Booleans as 0/1 with and=product, or=sum",
+                        "for strings with escape sequences outside the three `string-escape:` cases the raw text between the delimiters is accepted besides the exact value "
+                        "(the raw storage is the open finding string-escape:*)"]
     return rep.finish()
 
 
